@@ -138,6 +138,18 @@ impl Script {
         }
         self
     }
+    /// a scripted step of a bulk phase: executed, not judged (the steps that matter after a bulk phase are)
+    pub fn quiet(mut self, a: Act) -> Script {
+        if self.dead {
+            return self;
+        }
+        let ap = self.s.apply(&a);
+        if self.strict && !ap.out.ok {
+            eprintln!("note: scripted (bulk) seed step failed on this tree ({}: {:?}); the seed is truncated here", act_label(&a), ap.out.err);
+            self.dead = true;
+        }
+        self
+    }
     pub fn with(mut self, f: impl FnOnce(&Sim) -> Act) -> Script {
         if self.dead {
             return self;
@@ -248,6 +260,10 @@ pub fn seed_sweep(k: &K) -> Sim {
 pub fn seed_n_batches(k: &K, n: u64, deliver_each: bool, u2_withdraws: bool) -> Sim {
     let mut sc = Script::resumed(k);
     sc = sc.run(stake(&u(1), 5_000)).run(stake(&u(2), 3_000)).run(stake(&u(3), 1_000));
+    if n > 40 {
+        // long histories need more LST than the three standard stakes provide
+        sc = sc.run(stake(&u(1), 130 * n as u128 + (n as u128 * n as u128) / 2)).run(stake(&u(2), 60 * n as u128)).run(stake(&u(3), 10 * n as u128));
+    }
     for i in 1..=n {
         sc = sc.with(|s| unstake(s, &u(1), 100 + i as u128)).with(|s| unstake(s, &u(2), 50));
         if i % 3 == 0 {
@@ -431,6 +447,52 @@ pub fn foreign_state(mut s: Sim) -> Sim {
         }
     }
     s
+}
+
+/// A crowd: `n` requesters (more than a thousand) in ONE batch. The stakes and unstakes are a bulk phase;
+/// submission, delivery (short by 7) and the withdrawals of the first, the last and three middle requesters
+/// are judged steps; everybody else but `r1`, `r2` and `r<n>` withdraws in bulk. A second batch with a third
+/// of the crowd is pending and due.
+pub fn seed_crowd(k: &K, n: u32) -> Sim {
+    let mut sc = Script::resumed(k);
+    for i in 1..=n {
+        sc.s.fund(&rq(i), 10_000);
+    }
+    for i in 1..=n {
+        sc = sc.quiet(stake(&rq(i), 1_000 + (i % 97) as u128));
+    }
+    sc = sc.run(stake(&u(1), 500)).run(stake(&u(2), 300)).run(stake(&u(3), 100));
+    sc = sc.with(|s| rewards(s, 7_777));
+    for i in 1..=n {
+        if sc.dead {
+            break;
+        }
+        let a = unstake(&sc.s, &rq(i), 100 + (i % 13) as u128);
+        sc = if i % 250 == 0 { sc.run(a) } else { sc.quiet(a) };
+    }
+    sc = sc.with(|s| advance(pending_due(s).max(s.w.time + 1))).run(submit(&p20("x")));
+    sc = sc.with(|s| advance(s.m.batches[&1].due.max(s.w.time + 1)));
+    sc = sc.with(|s| {
+        let e = s.m.batches[&1].expected.unwrap();
+        deliver(s, 1, e - 7)
+    });
+    for i in [3, n / 2, n / 2 + 1, n - 1] {
+        sc = sc.run(withdraw(&rq(i), 1));
+    }
+    for i in 4..n - 1 {
+        if i != n / 2 && i != n / 2 + 1 {
+            sc = sc.quiet(withdraw(&rq(i), 1));
+        }
+    }
+    for i in (1..=n).step_by(3) {
+        if sc.dead {
+            break;
+        }
+        let a = unstake(&sc.s, &rq(i), 20 + (i % 5) as u128);
+        sc = sc.quiet(a);
+    }
+    sc = sc.with(|s| unstake(s, &u(1), 10)).with(|s| unstake(s, &u(2), 7));
+    sc.with(|s| advance(pending_due(s).max(s.w.time + 1))).done()
 }
 
 /// block time beyond 2^32 seconds and deadlines more than 2^32 seconds apart
